@@ -93,7 +93,7 @@ impl DivRemU8 of DivRemHelper<u8, u8> { type DivT = BoundedInt<0, 255>; type Rem
 ";
 
 /// Module text for one batch. Returns (text, line number of each C const).
-fn module(f: &Form, shape: &str, insts: &[Inst], skip_consts: &BTreeSet<usize>) -> (String, Vec<usize>) {
+fn module(f: &Form, shape: &str, insts: &[Inst], skip_consts: &BTreeSet<usize>, half: bool) -> (String, Vec<usize>) {
     let (ta, tb, r) = (f.ta.as_str(), f.tb.as_str(), f.ret.as_str());
     let mut s = String::new();
     let mut lines = vec![];
@@ -143,7 +143,7 @@ fn module(f: &Form, shape: &str, insts: &[Inst], skip_consts: &BTreeSet<usize>) 
         push(&mut s, format!("fn fold{k}() -> {r} {{ let a: {ta} = {la}; let b: {tb} = {lb}; {} }}", expr(f, "a", "b")));
         // one operand a compile-time constant, the other opaque: the identity / absorbing-element
         // simplifications of the folder (x+0, x*1, 0*x, 0/x, x/1 ...) and partial knowledge
-        if !f.unary && shape == "direct" {
+        if half {
             push(&mut s, format!("fn hl{k}(b: {tb}) -> {r} {{ let a: {ta} = {la}; {} }}", expr(f, "a", "b")));
             push(&mut s, format!("fn hr{k}(a: {ta}) -> {r} {{ let b: {tb} = {lb}; {} }}", expr(f, "a", "b")));
         }
@@ -179,12 +179,14 @@ fn run_fn(c: &Compiled, name: &str, args: &[BigInt]) -> Option<RunResultValue> {
     }
 }
 
-fn check_batch(ctx: &mut Ctx, dbs: &mut Dbs, f: &Form, shape: &str, insts: &[Inst]) {
+fn check_batch(ctx: &mut Ctx, dbs: &mut Dbs, f: &Form, shape: &str, insts: &[Inst], exhaustive: bool) {
+    // the half-constant twins: binary forms, shape `direct`, boundary operand sets (not the 65 536-pair sweeps)
+    let half = !f.unary && shape == "direct" && !exhaustive;
     let cfg = Cfg::DEFAULT;
     let nofold = Cfg { skip_const_folding: true, ..Cfg::DEFAULT };
     let case = |k: usize, what: &str| json!({"type": f.ta, "type_b": f.tb, "op": f.name, "shape": shape, "a": insts[k].a.to_string(), "b": insts[k].b.to_string(), "expr": expr(f, "A", "B"), "what": what});
     // pass 1: all consts; collect which fail and how
-    let (text, lines) = module(f, shape, insts, &BTreeSet::new());
+    let (text, lines) = module(f, shape, insts, &BTreeSet::new(), half);
     let diag = match dbs.compile(&cfg, &text) {
         Ok(_) => String::new(),
         Err(d) => d,
@@ -208,7 +210,7 @@ fn check_batch(ctx: &mut Ctx, dbs: &mut Dbs, f: &Form, shape: &str, insts: &[Ins
     }
     // pass 2: without the failing consts; must compile
     let skip: BTreeSet<usize> = failed.keys().copied().collect();
-    let (text2, _) = module(f, shape, insts, &skip);
+    let (text2, _) = module(f, shape, insts, &skip, half);
     let prog = match guarded(|| dbs.compile(&cfg, &text2)).unwrap_or_else(|(loc, msg)| {
         dbs.forget(&cfg);
         Err(format!("panic at {loc}: {msg}"))
@@ -303,7 +305,7 @@ fn check_batch(ctx: &mut Ctx, dbs: &mut Dbs, f: &Form, shape: &str, insts: &[Ins
                     }
                 }
             }
-            if f.unary || shape != "direct" {
+            if !half {
                 continue;
             }
             for (side, fname_, arg) in [("left-const", format!("hl{k}"), &i.b), ("right-const", format!("hr{k}"), &i.a)] {
@@ -509,7 +511,7 @@ fn run_all(ctx: &mut Ctx) {
                         || json!({"space":"const-vs-runtime","type":t.name,"op":op.name,"shape":shape,"batch":bi}),
                         |ctx| {
                             ctx.count("batches", 1);
-                            check_batch(ctx, &mut dbs, &f, shape, batch)
+                            check_batch(ctx, &mut dbs, &f, shape, batch, exhaustive)
                         },
                     );
                 }
@@ -528,7 +530,7 @@ fn run_all(ctx: &mut Ctx) {
                 || json!({"space":"folder","type":f.ta,"type_b":f.tb,"op":f.name,"batch":bi}),
                 |ctx| {
                     ctx.count("folder_batches", 1);
-                    check_batch(ctx, &mut dbs, &f, "direct", batch)
+                    check_batch(ctx, &mut dbs, &f, "direct", batch, exhaustive)
                 },
             );
         }
